@@ -44,12 +44,12 @@ def rand_table_spec(rng, p_none=0.4):
 
 def encode_budget(L, live):
     digits = L // 3 + 8
-    return 4 * ((L + 1) * max(live, 1) * digits + 2 * (L + 1) * digits + 100)
+    return 16 * ((L + 1) * max(live, 1) * digits + 2 * (L + 1) * digits + 500)
 
 
 def decode_budget(n, L):
     digits = max(n * 2, L) // 3 + 8
-    return 4 * (3 * (n + 1) * digits + (L + 2) * digits + 100) + 2000
+    return 16 * (3 * (n + 1) * digits + (L + 2) * digits + 500)
 
 
 class Outcome:
